@@ -48,7 +48,7 @@ fn const_patch_flags() {
 // U-defaults (complete): Options::default() is the documented default (C14).
 #[kani::proof]
 #[kani::stub(std::ptr::drop_in_place, no_drop)]
-#[kani::stub(core::ptr::drop_glue, no_glue)] #[kani::stub(alloc::alloc::dealloc, no_dealloc)]
+#[kani::stub(core::ptr::drop_glue, no_glue)] #[kani::stub(std::vec::Vec::extend_from_slice, extend_from_slice_model)] #[kani::stub(alloc::alloc::dealloc, no_dealloc)]
 fn options_default() {
     let o = Options::default();
     assert!(!o.transform_on, "U-defaults: transformOn defaults to false");
@@ -93,7 +93,7 @@ fn isconst_shapes<const K: u8, const WRAP: u8>() {
     assert!(r == expect, "U-isconst: constant iff built only from literals/undefined through arrays and objects without spreads");
     std::mem::forget(v);
 }
-macro_rules! isconst { ($($n:ident: $k:expr, $w:expr;)*) => { $(#[kani::proof] #[kani::unwind(3)] #[kani::stub(std::ptr::drop_in_place, no_drop)] #[kani::stub(core::ptr::drop_glue, no_glue)] #[kani::stub(alloc::alloc::dealloc, no_dealloc)] fn $n() { isconst_shapes::<$k, $w>() })* } }
+macro_rules! isconst { ($($n:ident: $k:expr, $w:expr;)*) => { $(#[kani::proof] #[kani::unwind(3)] #[kani::stub(std::ptr::drop_in_place, no_drop)] #[kani::stub(core::ptr::drop_glue, no_glue)] #[kani::stub(std::vec::Vec::extend_from_slice, extend_from_slice_model)] #[kani::stub(alloc::alloc::dealloc, no_dealloc)] fn $n() { isconst_shapes::<$k, $w>() })* } }
 isconst! {
     isconst_k0_w0: 0, 0; isconst_k1_w0: 1, 0; isconst_k2_w0: 2, 0; isconst_k3_w0: 3, 0; isconst_k4_w0: 4, 0; isconst_k5_w0: 5, 0; isconst_k6_w0: 6, 0;
     isconst_k0_w1: 0, 1; isconst_k1_w1: 1, 1; isconst_k3_w1: 3, 1; isconst_k5_w1: 5, 1;
@@ -101,7 +101,7 @@ isconst! {
     isconst_k0_w3: 0, 3; isconst_k1_w3: 1, 3; isconst_k2_w3: 2, 3; isconst_k6_w3: 6, 3;
     isconst_k3_w4: 3, 4; isconst_k3_w5: 3, 5;
 }
-#[kani::proof] #[kani::stub(std::ptr::drop_in_place, no_drop)] #[kani::stub(core::ptr::drop_glue, no_glue)] #[kani::stub(alloc::alloc::dealloc, no_dealloc)]
+#[kani::proof] #[kani::stub(std::ptr::drop_in_place, no_drop)] #[kani::stub(core::ptr::drop_glue, no_glue)] #[kani::stub(std::vec::Vec::extend_from_slice, extend_from_slice_model)] #[kani::stub(alloc::alloc::dealloc, no_dealloc)]
 fn isconst_value_kinds() {
     // string literal attribute value: constant; element / fragment / empty container: not constant
     let v = str_value("x");
